@@ -9,7 +9,7 @@
      [dispatch s typ tok d] the part of _receive after the unwrap prologue (decoding, PIT, handlers, validation)
      [on_nack s r frag]     parse_interest(frag) + _on_nack(name, r)          -- both abstract (other properties).
    The theorems are about the library with the fixes 361b618 (Nack without reason), 5bae578 (idle / short
-   fragment) and ef52f64 (IndexError caught; C06); envelopes whose recognised headers are NOT in the declared
+   fragment), 6e6923f (nocopy Length) and ef52f64 (IndexError caught; C06); envelopes whose recognised headers are NOT in the declared
    order are outside [envelope_of]: there the property fails (Properties/C10Findings.v, known finding
    C10-header-out-of-order). *)
 From NDN Require Import Base.Prelude Model.TlvVar Model.Name Model.Tlv Model.Packet Model.Lp Spec.TlvWf
@@ -106,6 +106,13 @@ Theorem C10_token_echo_parses k data :
              lp_nack vs = None /\ unfragmented vs.
 Proof. exact (token_echo_parses k data). Qed.
 
+(* the header-first variant (_put_raw_packet_with_pit_token_nocopy) puts the same bytes on a stream face *)
+Theorem C10_token_echo_nocopy data k :
+  N.of_nat (length (spec_reply_wire (Some k) data)) < two64 ->
+  exists h, put_raw_packet_with_pit_token_nocopy true data k = Ok [h; data] /\
+            h ++ data = spec_reply_wire (Some k) data.
+Proof. exact (put_nocopy_bytes data k). Qed.
+
 (* ... and a peer running this library receives the data with the token *)
 Theorem C10_reply_received k data t n :
   tl_dec data = Ok (t, n) -> N.of_nat (length (ser_els (token_els k data))) < two64 ->
@@ -149,6 +156,7 @@ Print Assumptions C10_fragmented_rejected.
 Print Assumptions C10_prologue_never_raises.
 Print Assumptions C10_idle_dropped.
 Print Assumptions C10_reply_received.
+Print Assumptions C10_token_echo_nocopy.
 Print Assumptions C10_model_meets_spec.
 Print Assumptions C10_token_echo.
 Print Assumptions C10_token_echo_parses.
